@@ -235,8 +235,108 @@ def fill_value_engines(M, rec, rng, g, n_nets):
                                           {"desc": desc, "element": el.name, "variable": nm, "value": np.asarray(x, dtype=float).ravel().tolist()[:4],
                                            "explicit_value": a, "selected_value": b, "value_of_an_engine_configured_later": c})
                             break
+        # the live explicit engine is re-configured through its documented setter
+        d_ = rng.choice((3.0, 0.125, 11.0))
+        explicit.var_type = d_
+        try:
+            built.net.step(engine=explicit, **kw)
+            rec.count("fill_value_runs")
+            for el in built.elements.values():
+                for grp in (el.states, el.actions, el.disturbances):
+                    for nm, x in (grp or {}).items():
+                        rec.count("fill_value_checks")
+                        if not np.all(np.asarray(x, dtype=float) == d_):
+                            rec.violation(f"{PROP}:fill-value engines: after `engine.var_type = value` a variable created by that engine does not carry the new value",
+                                          {"desc": desc, "element": el.name, "variable": nm, "value": np.asarray(x, dtype=float).ravel().tolist()[:4], "new_value": d_, "old_value": a})
+                            break
+        except Exception as e:
+            rec.violation(f"{PROP}:fill-value engines: step after re-configuring the engine raised {type(e).__name__}", {"exception": repr(e)[:300]})
         if E.get_current_engine() is not selected:
             rec.violation(f"{PROP}:fill-value engines: the selection changed", {"desc": desc})
+
+
+def user_engine_runs(M, rec, rng, g, n_nets):
+    """A user-defined engine (README: engines are written by implementing EngineBase; here derived from the
+    shipped ones) with its OWN node model: turn rates are absolute fractions, q = beta * Q (what is left
+    leaves by an unmodelled exit).  Passed explicitly, or selected: every split flow must come from it."""
+    import sym_metanet
+    from sym_metanet import engines as E
+    from sym_metanet.engines import casadi as EC, numpy as EN
+    from vf import oracle as O, refmodel as R
+
+    class NodesNP(EN.NodesEngine):
+        @staticmethod
+        def get_upstream_flow(q_lasts, beta, betas, q_orig=None):
+            Q = np.sum(q_lasts, 0)
+            if q_orig is not None:
+                Q = Q + q_orig
+            return beta * Q
+
+    class UserNP(EN.Engine):
+        @property
+        def nodes(self):
+            return NodesNP
+
+    class NodesCS(EC.NodesEngine):
+        @staticmethod
+        def get_upstream_flow(q_lasts, beta, betas, q_orig=None):
+            Q = cs.sum1(q_lasts)
+            if q_orig is not None:
+                Q = Q + q_orig
+            return beta * Q
+
+    class UserCS(EC.Engine):
+        @property
+        def nodes(self):
+            return NodesCS
+
+    sh = W.shapes_cycle()
+    symvals = O.SymVals(random.Random(3))
+    for it in range(n_nets):
+        shape = ("bifurcation", "crossing", "random", next(sh))[it % 4]
+        desc = g.network(shape)[1]
+        built = D.build(M, desc, D.random_ops(desc, rng))
+        pars = g.pars()
+        kw = drive.step_pars(pars)
+        _, vals = g.values(desc, allow_inf=False)
+        kind = ("numpy", "numpy", "SX", "MX")[it % 4]
+        eng = UserNP() if kind == "numpy" else UserCS(kind)
+        how = rng.choice(("explicit", "selected"))
+        E.use(eng if how == "selected" else rng.choice((EN.Engine(), EC.Engine("SX"))))
+        try:
+            if kind == "numpy":
+                ic = drive.np_init(built, vals, "vec1")
+            else:
+                symvals.clear()
+                ic, _s = drive.sym_init(M, built, kind, symvals, vals)
+            step_kw = dict(init_conditions=ic, **kw)
+            if how == "explicit":
+                step_kw["engine"] = eng
+            built.net.step(**step_kw)
+            ob = O.observe(M, built.net, eng, dict(step_kw, engine=eng), symvals)
+        except Exception as e:
+            rec.violation(f"{PROP}:user-defined engine ({kind}, {how}): step raised {type(e).__name__}", {"exception": repr(e)[:300]})
+            continue
+        if not O.admissible(ob):
+            continue
+        ob.desc["split_rule"] = "absolute"
+        try:
+            ref = R.ref_step(ob.desc, ob.vals, ob.pars, ob.opts)
+        except (R.Singular, R.Inadmissible):
+            continue
+        rec.count("user_engine_runs")
+        rec.seen("user_engine_modes", (kind, how))
+        for eid, d in ref.next.items():
+            for nm, v in d.items():
+                vs = v if isinstance(v, list) else [v]
+                ws = ob.nxt[eid][nm] if isinstance(ob.nxt[eid][nm], list) else [ob.nxt[eid][nm]]
+                ms = ref.mag[eid][nm] if isinstance(ref.mag[eid][nm], list) else [ref.mag[eid][nm]] * len(vs)
+                for i_, (a_, b_, m_) in enumerate(zip(vs, ws, ms)):
+                    rec.count("user_engine_scalars_compared")
+                    if not O.close(a_, b_, m_, rel=1e-9):
+                        rec.violation(f"{PROP}:a quantity was not computed by the ({how}) user-defined engine: {nm}+ follows the shipped node model, not the engine's own",
+                                      {"desc": desc, "engine": kind, "how": how, "element": eid, "index": i_, "observed": b_, "expected_with_the_engines_own_rule": a_})
+                        break
 
 
 def selection_histories(M, rec, rng, n_hist):
@@ -368,6 +468,7 @@ def run(M, rec, tier, seed, k, n):
         selection_histories(M, rec, rng, 300 if tier == "quick" else 10000)
         spy_runs(M, rec, rng, g, 45 if tier == "quick" else 700)
         fill_value_engines(M, rec, rng, g, 30 if tier == "quick" else 400)
+        user_engine_runs(M, rec, rng, g, 40 if tier == "quick" else 500)
     finally:
         E.use(saved)
 
